@@ -1125,7 +1125,7 @@ def run(ctx):
     ctx.pmap(w_mask_spell, s_items, chunk=1, label="mask / index spellings", seed=ctx.seed)
 
     # (8) aberration spelling x source precedence
-    a_shapes = [SHAPES[1]] if q else SHAPES[:2]
+    a_shapes = [SHAPES[1]]  # the scan shape does not interact with how aberration names are resolved
     a_masks = ["disc5"] if q else masks
     a_rots = [0.3] if q else ROTS
     a_ups = [1] if q else [1, 2]
